@@ -4,26 +4,45 @@ usage: tools_seeds.py [--inplace] [seed-id ...]   (default: all under /verif/see
 Default mode works on a scratch worktree of /repo (VERIF_REPO) so that /repo and the registered evidence are untouched;
 --inplace applies each patch to /repo itself (git apply / git checkout -- .) as the brief describes."""
 import json, os, shutil, subprocess, sys
-V = "/verif"
+V = os.path.dirname(os.path.abspath(__file__))     # a snapshot of /verif (rsync, .cache linked) runs its own copy of the rules
 args = [a for a in sys.argv[1:] if not a.startswith("--")]
 inplace = "--inplace" in sys.argv
 man = json.load(open(V + "/MANIFEST.json"))
 props = [c["property_id"] for c in man["checks"]]
 seeds = args or sorted(d for d in os.listdir(V + "/neutral") if os.path.isdir(V + "/neutral/" + d))
+lane = [a for a in sys.argv[1:] if a.startswith("--lane=")]
+LANE = lane[0].split("=")[1] if lane else None
+RUN = "/tmp/neutralrun"
+RESFILE = V + "/neutral/RESULTS.json"
+if "--merge" in sys.argv:
+    import glob
+    res = json.load(open(RESFILE)) if os.path.exists(RESFILE) else {}
+    for f in sorted(glob.glob(V + "/neutral/RESULTS.lane-*.json")):
+        res.update(json.load(open(f)))
+        os.remove(f)
+    json.dump(res, open(RESFILE, "w"), indent=1, sort_keys=True)
+    sys.exit(0)
+if LANE:
+    k, n = (int(x) for x in LANE.split("/"))
+    seeds = seeds[k::n]
+    RUN = "/tmp/neutralrun-%d" % k
+    RESFILE = V + "/neutral/RESULTS.lane-%d.json" % k
 res = {}
-if os.path.exists(V + "/neutral/RESULTS.json"):
+if os.path.exists(V + "/neutral/RESULTS.json") and not LANE:
     res = json.load(open(V + "/neutral/RESULTS.json"))
 env = dict(os.environ)
 if inplace:
     repo = "/repo"
     assert subprocess.run(["git", "-C", "/repo", "status", "--porcelain"], capture_output=True, text=True).stdout.strip() == "", "/repo not clean"
 else:
-    repo = "/tmp/neutralrun/repo"
-    shutil.rmtree("/tmp/neutralrun", ignore_errors=True)
+    repo = RUN + "/repo"
+    shutil.rmtree(RUN, ignore_errors=True)
     subprocess.run(["git", "-C", "/repo", "worktree", "prune"], check=True)
     subprocess.run(["git", "-C", "/repo", "worktree", "add", "-q", "--detach", repo, "HEAD"], check=True)
     env["VERIF_REPO"] = repo
-    env["VERIF_EVIDENCE_DIR"] = "/tmp/neutralrun/evidence"
+    env["VERIF_EVIDENCE_DIR"] = RUN + "/evidence"
+    if LANE:
+        env["VERIF_FACTS_LANE"] = "n" + LANE.split("/")[0]
 try:
     for s in seeds:
         patch = "%s/neutral/%s/patch.diff" % (V, s)
@@ -61,8 +80,8 @@ try:
 finally:
     if not inplace:
         subprocess.run(["git", "-C", "/repo", "worktree", "remove", "--force", repo])
-        shutil.rmtree("/tmp/neutralrun", ignore_errors=True)
-    json.dump(res, open(V + "/neutral/RESULTS.json", "w"), indent=1, sort_keys=True)
+        shutil.rmtree(RUN, ignore_errors=True)
+    json.dump(res, open(RESFILE, "w"), indent=1, sort_keys=True)
     if inplace:
         for p in props:
             subprocess.run([V + "/check", p], capture_output=True, text=True, cwd=V)
